@@ -77,7 +77,11 @@ def run(tier="quick", seed=0, arg=None):
     # ---- C17: every specifier set packaging accepts parses; everything else raises InvalidSpecifier only
     near_miss = ["", " ", ">=", "1.0", "=1.0", ">=1.0,", ",>=1", ">=1.0 <2", "~=1", "==1.*.0", ">=1.*", "!=", "<empty", "abc", ">=1.0||", "||", ">=1.0|| ||<2",
                  "===", "=>1.0", ">=1.0;", "~=1.0.*", "==*", ">=1.0.post", "<1.0+local", "==1.0+local", "~= 1.0", " >= 1.0 , < 2 ", "<=1.0,>=2,!=1.5", "==1.0.dev",
-                 ">1!", "!=1.0.*.*", "== 1.0 || >=2", "<empty>", ">=v1.0", "==1.0 ,", "~=1!2.3", "==1!2.*"]
+                 ">1!", "!=1.0.*.*", "== 1.0 || >=2", "<empty>", ">=v1.0", "==1.0 ,", "~=1!2.3", "==1!2.*",
+                 # `<empty>` is a whole-string (or whole-alternative) token, never a clause of a comma-separated set
+                 # not over the PEP 440 grammar (U+017F), yet let through by the compatible-release branch of packaging's specifier regex: the string is invalid
+                 "~=1.0.po\u017ft1", ">=1,~=1.0.po\u017ft1", "<2||~=1.0.po\u017ft1",
+                 ">=1.0,<empty>", "<empty>,>=1.0", ">=1.0,<empty>,<2.0", "<3.0||>=3.6,<empty>", "<empty>,<empty>", "<empty>,"]
     # an invalid alternative at every position of a `||` chain, incl. after (and between) alternatives whose union already covers every version
     # or is still empty: each alternative is validated whatever the others denote
     chains = []
@@ -95,7 +99,9 @@ def run(tier="quick", seed=0, arg=None):
     for t in leaves + near_miss + chains + [f"{a},{b}" for a, b in [(rng.choice(leaves), rng.choice(leaves)) for _ in range(200 if tier == "quick" else 1500)]]:
         evals += 1
         ref_ok = True
-        if "||" in t or t == "<empty>":
+        if not t.isascii():
+            ref_ok = False          # the PEP 440 grammar is ASCII: whatever packaging's regex lets through, the string is not a specifier set
+        elif "||" in t or t == "<empty>":
             parts = t.split("||") if t != "<empty>" else []
             for part in parts:
                 try:
